@@ -1352,6 +1352,90 @@ func (g *gen) nativeReentry(c *Case) {
 	}
 }
 
+// go resolver: the resolve/reject closures returned by Runtime.NewPromise() are called from plain Go
+// (outermost, empty call stack), mostly while nothing has subscribed to the promise yet, with a
+// promise / thenable / plain value; every such call must drain what it queued before it returns
+// (jobQueue length is observed after every run), and the following unrelated runs must see the
+// spec order.
+func (g *gen) goResolver(c *Case) {
+	r := g.r
+	c.Class = "go-resolver"
+	nGo := 1 + r.Intn(2)
+	g.nT = 1 + r.Pick(40, 40, 20)
+	g.genThenables(c, nGo)
+	run := 0
+	setRun := func() { c.Ops[len(c.Ops)-1].Run = run }
+	for i := 0; i < nGo; i++ {
+		g.addNew(c)
+		c.Ops[len(c.Ops)-1].Go = true
+		setRun()
+		run++
+	}
+	// a script-created promise, usually already settled, possibly with a logging reaction
+	js := g.names
+	g.addNew(c)
+	setRun()
+	if r.Chance(70) {
+		g.addSettle(c, []string{"res", "rej"}[r.Pick(80, 20)], js, g.someInt())
+		setRun()
+	}
+	if r.Chance(50) {
+		c.Ops = append(c.Ops, Op{O: "then", P: js, OnF: g.plainScript(0), OnR: g.plainScript(0)})
+		g.names++
+		setRun()
+	}
+	run++
+	for k := 0; k < nGo; k++ {
+		if r.Chance(25) { // somebody already listens
+			c.Ops = append(c.Ops, Op{O: "then", P: k, OnF: g.plainScript(0), OnR: g.plainScript(0)})
+			g.names++
+			setRun()
+			run++
+		}
+		var v Val
+		switch r.Pick(35, 10, 40, 10, 5) {
+		case 0:
+			v = Val{K: "prom", N: js}
+		case 1:
+			v = Val{K: "prom", N: r.Intn(nGo)}
+		case 2:
+			v = g.someThen()
+		case 3:
+			v = g.someInt()
+		default:
+			v = Val{K: "prom", N: k}
+		}
+		c.Ops = append(c.Ops, Op{Run: run, Go: true, O: []string{"res", "rej"}[r.Pick(85, 15)], Pr: k, V: &v})
+		run++
+		if r.Chance(30) { // a second call through the same pair
+			v2 := g.someInt()
+			c.Ops = append(c.Ops, Op{Run: run, Go: true, O: []string{"res", "rej"}[r.Pick(50, 50)], Pr: k, V: &v2})
+			run++
+		}
+	}
+	// an unrelated entry: a fresh settled promise with a chain, and late listeners on the Go promises
+	x := g.names
+	g.addNew(c)
+	setRun()
+	g.addSettle(c, "res", x, g.someInt())
+	setRun()
+	c.Ops = append(c.Ops, Op{Run: run, O: "then", P: x, OnF: g.plainScript(0)})
+	g.names++
+	c.Ops = append(c.Ops, Op{Run: run, O: "then", P: g.names - 1, OnF: g.plainScript(0)})
+	g.names++
+	for k := 0; k < nGo; k++ {
+		if r.Chance(80) {
+			c.Ops = append(c.Ops, Op{Run: run, O: "then", P: k, OnF: g.plainScript(0), OnR: g.plainScript(0)})
+			g.names++
+		}
+	}
+	run++
+	if r.Chance(40) { // settle the script promise from Go as well (through a Callable)
+		v := g.someInt()
+		c.Ops = append(c.Ops, Op{Run: run, Go: true, O: []string{"res", "rej"}[r.Pick(60, 40)], Pr: js, V: &v})
+	}
+}
+
 func (g *gen) genThenables(c *Case, base int) {
 	r := g.r
 	for i := 0; i < g.nT; i++ {
@@ -1606,12 +1690,15 @@ func (g *gen) tickRace(c *Case) {
 func genCase(r *vh.Rng) Case {
 	g := &gen{r: r, nextID: 1, lastTgt: -1, live: map[int]bool{}, touched: map[int]bool{}}
 	c := Case{Thenables: []Thenable{}, Ops: []Op{}}
-	switch r.Pick(20, 15, 65) {
+	switch r.Pick(18, 13, 57, 12) {
 	case 0:
 		g.tickRace(&c)
 		return c
 	case 1:
 		g.nativeReentry(&c)
+		return c
+	case 3:
+		g.goResolver(&c)
 		return c
 	}
 	base := 1 + r.Pick(35, 35, 20, 10)
